@@ -303,7 +303,7 @@ def _c06_entry_shard(shard, seed, pid, tier, jobs):
                          or base.action_space.get_action(i).is_privilege_escalation())][:7]
             else:
                 scans = [[2, 0, 0, 0, 0, 0], [3, 0, 0, 0, 0, 0], [5, 0, 0, 0, 0, 0], [4, 0, 0, 0, 0, 0]]
-            for episode, extent in ((0, (lim or 1500) + 4), (1, 6)):
+            for episode, extent in ((0, (lim or (2100 if isinstance(arg, dict) and arg.get("name") else 1500)) + 4), (1, 6)):
                 env.reset(seed=episode) if episode == 0 else env.reset()
                 for n in range(1, extent + 1):
                     a = scans[n % len(scans)]
@@ -351,6 +351,9 @@ def c06_entry_jobs(tier):
         if lim is not None:
             p["step_limit"] = lim
         jobs.append(("generate", p, {}))
+    # no step limit, but called like a benchmark (a user's own tiny.yaml / name="tiny"): never truncated
+    jobs.append(("generate", dict(num_hosts=5, num_services=2, seed=3, name="tiny"), {}))
+    jobs.append(("generate", dict(num_hosts=6, num_services=3, seed=4, name="medium"), {"flat_actions": False}))
     return jobs
 
 
